@@ -18,6 +18,10 @@ func init() { drv.Register(&C02{}) }
 func (C02) ID() string    { return "C02" }
 func (C02) Level() string { return "exploration" }
 func (C02) Rule() string {
+	return c02Rule() + " A resolve family (every fifth run) commits two branches that conflict on keys of one instance and resolves them together with instances in which they do not conflict (POST resolve also replaces half of the merges of the history family): conflict deletions must land in extension versions, the committed parents must read as before."
+}
+
+func c02Rule() string {
 	return "each run = a repo holding one instance of every exercised data type (keyvalue, labelmap, annotation synced to the labelmap, labelsz, roi, neuronjson, uint8blk), populated and committed; then " +
 		"(a) route-gate enumeration: the endpoint keywords of every type are extracted at check time from the `case \"...\"` labels of its ServeHTTP in /repo's working tree; for each keyword x {POST, PUT, DELETE} (sampled in quick, all in thorough) " +
 		"plus the catalogue's syntactically valid mutation requests plus the node-level routes (note, log, commit, instance creation) a request is sent to the COMMITTED version in the run's server mode " +
